@@ -4,6 +4,7 @@ package core
 
 import (
 	"fmt"
+	"runtime"
 	"time"
 
 	"github.com/hashicorp/serf/serf"
@@ -137,4 +138,16 @@ func bucket(n int, edges ...int) string {
 		}
 	}
 	return fmt.Sprintf(">%d", edges[len(edges)-1])
+}
+
+// spin is the body of a polling loop: yield for the first few thousand rounds
+// (the awaited goroutine usually needs microseconds; time.Sleep costs >1 ms
+// here), then back off to real sleeps.
+func spin(i *int) {
+	*i++
+	if *i < 3000 {
+		runtime.Gosched()
+		return
+	}
+	time.Sleep(200 * time.Microsecond)
 }
